@@ -37,7 +37,7 @@
 From Coq Require Import List NArith.
 From ApiFu Require Import Base.Sexp Vld.Ast Vld.Inspect Vld.TypeInfoModel Vld.TypeInfoPure Vld.ValidatorModel Vld.ValidSpec
      Vld.Hyps Vld.ProofsCommon Vld.ProofsDirectives Vld.ProofsArguments Vld.ProofsFragDecl Vld.ProofsValues
-     Vld.ProofsCycles Vld.ProofsVarsOrder Vld.ProofsOrder Vld.ProofsOperations Vld.ProofsTotal Vld.Enumerate Vld.ProofsFields Vld.ProofsMemo Vld.ValidatorProofs Vld.ProofsSpreads Vld.Witness.
+     Vld.ProofsCycles Vld.ProofsVarsOrder Vld.ProofsOrder Vld.ProofsOperations Vld.ProofsTotal Vld.Enumerate Vld.ProofsFields Vld.ProofsMemo Vld.ValidatorProofs Vld.ProofsSpreads Vld.ProofsDepth Vld.ProofsDepthRule Vld.MemoTransfer Vld.Witness.
 Import ListNotations.
 
 (** ** determinism: acceptance is a function of schema, features and document alone *)
@@ -76,6 +76,41 @@ Proof. exact validate_memo_no_panic. Qed.
 Theorem C04_memo_accepts_what_plain_accepts_partial : forall q pi S F D,
   validate_model q pi S F D = Done [] -> validate_model_memo q pi S F D = Done [].
 Proof. exact validate_memo_accepts. Qed.
+
+(** what acceptance BY THE VALIDATOR AS IT IS (with the memo: the model the check ties to the code)
+    guarantees over a well-formed schema: every section whose "accepted => holds" direction is
+    proved, in one statement.  None of them depends on the overlapping-fields pass, so the open memo
+    converse is not needed here. *)
+Theorem C04_memo_accepted_valid : forall pi S F D,
+  order_ok pi -> schema_ok S = true -> validate_model_memo repaired pi S F D = Done [] ->
+  valid_5_2_1_1 D = true /\ valid_5_2_2_1 D = true /\ valid_root S D = true /\
+  valid_5_3_1 S F D = true /\ valid_5_3_3 S F D = true /\ fields_defined S F D = true /\
+  valid_5_4 S F D = true /\
+  valid_5_5_1 S F D = true /\ valid_5_5_2_1 D = true /\
+  (values_typed_input S F D = true -> valid_5_6 S F D = true) /\
+  valid_5_7 S D = true.
+Proof. exact memo_accepted_valid. Qed.
+
+(** ** the depth bound of the overlapping-fields recursion
+    "fragment cycle detected" (the secondary error EDepth of validateSameResponseShape, bound = number
+    of fields + 1) is never reported for a document with uniquely named fragments and no spread
+    cycle: every chain of fields nested through selection sets, inline fragments and fragment spreads
+    ([Hle]) is then shorter than the number of fields — the definitions entered along a chain are
+    pairwise distinct, and inside one definition the chain descends structurally.  This is the
+    combinatorial half of the memo converse and of secondary_never_alone. *)
+Theorem C04_depth_bound_suffices : forall D,
+  NoDup (frag_names D) -> (forall n, In n (frag_names D) -> ~ exists x, reach D n x /\ edge D x n) ->
+  forall ss f, In ss (all_subs D) -> InC D ss f -> Hle D (max_depth D) f.
+Proof. exact depth_suffices. Qed.
+Theorem C04_no_depth_error_without_cycle : forall pi, order_ok pi -> forall S F A,
+  NoDup (frag_names A) -> (forall n, In n (frag_names A) -> ~ exists x, reach A n x /\ edge A x n) ->
+  forall errs, rule_fields repaired pi S F A = Done errs -> forall e, In e errs -> e_kind e <> EDepth.
+Proof. exact rule_fields_no_depth. Qed.
+(** a silent cycle rule means: no fragment reaches itself *)
+Theorem C04_spreads_silent_acyclic : forall pi S F A,
+  order_ok pi -> rule_fragment_spreads repaired pi S F A = Done [] ->
+  forall n, In n (frag_names A) -> ~ exists x, reach A n x /\ edge A x n.
+Proof. exact silent_acyclic. Qed.
 
 (** ** the pipeline *)
 (** NewTypeInfo never indexes an empty scope stack *)
@@ -255,6 +290,10 @@ Print Assumptions C04_validate_no_panic.
 Print Assumptions C04_verdict_deterministic.
 Print Assumptions C04_validate_memo_no_panic.
 Print Assumptions C04_memo_accepts_what_plain_accepts_partial.
+Print Assumptions C04_memo_accepted_valid.
+Print Assumptions C04_depth_bound_suffices.
+Print Assumptions C04_no_depth_error_without_cycle.
+Print Assumptions C04_spreads_silent_acyclic.
 Print Assumptions C04_type_info_total.
 Print Assumptions C04_accepted_iff_rules_silent.
 Print Assumptions C04_all_rules_silent.
